@@ -90,8 +90,26 @@ def one_config(ctx, desc):
     n = len(units)
     names = gen.ANNOTATORS[:n]
     identical = all(list(u) == list(units[0]) for u in units)       # every annotator holds the same units: gamma must be 1
-    cont = gen.build_continuum(pa, units)
     dissim = gen.make_dissim(pa, spec)
+    if desc.get("edit") is not None:
+        # history: the SAME continuum object was measured once (gamma with 1 sample, best and soft alignment), then a unit was moved in place;
+        # the run under test is on the object as it is now - nothing computed before the edit may be reused
+        from pyannote.core import Segment
+        cont = gen.build_continuum(pa, [[tuple(u) for u in us] for us in desc["units_before"]])
+        try:
+            np.random.seed(npseed)
+            cont.compute_gamma(dissim, n_samples=1, sampler=pa.ShuffleContinuumSampler())
+            cont.get_best_soft_alignment(dissim)
+            _, a, old, new = desc["edit"]
+            cont.remove(gen.ANNOTATORS[a], pa.continuum.Unit(Segment(old[0], old[1]), old[2]))
+            cont.add(gen.ANNOTATORS[a], Segment(new[0], new[1]), new[2])
+        except Exception as e:
+            rep.case()
+            rep.violation("compute_gamma-raises:" + type(e).__name__, dict(desc, error=repr(e)), "the calls before the edit raised %r" % (e,))
+            return
+        rep.count("same_object_after_edit")
+    else:
+        cont = gen.build_continuum(pa, units)
     sampler = pa.StatisticalContinuumSampler() if sname == "stat" else pa.ShuffleContinuumSampler(pivot_type="int_pivot" if sname == "shuffle-int" else "float_pivot")
     np.random.seed(npseed)
     try:
@@ -256,6 +274,10 @@ def run(rep, tier, seed, pa):
         npseed = rng.randrange(2 ** 31)
         desc = {"units": units, "dissim": spec, "mode": mode, "sampler": sname, "precision": prec, "n_samples": n_samples,
                 "ground_truth": gt, "numpy_seed": npseed}
+        if ri % 5 == 4:
+            after = ac.edited_case(rng, {"units": units, "spec": spec})
+            if after is not None and after["edit"][0] == "move" and all(len(u) > 0 for u in after["units"]):
+                desc.update(units=after["units"], units_before=units, edit=after["edit"])
         one_config(ctx, desc)
     finish(ctx)
     sample = [l for l in rule_lines][:6]
@@ -269,7 +291,9 @@ def run(rep, tier, seed, pa):
 def replay(rep, data, pa):
     """re-runs the recorded configuration (same NumPy seed) through every clause of the check"""
     ac.install_backend_hooks()
-    desc = {k: data.get(k) for k in ("units", "dissim", "mode", "sampler", "precision", "n_samples", "ground_truth", "numpy_seed")}
+    desc = {k: data.get(k) for k in ("units", "dissim", "mode", "sampler", "precision", "n_samples", "ground_truth", "numpy_seed", "units_before", "edit")}
+    if desc["edit"] is not None:
+        desc["edit"] = (desc["edit"][0], desc["edit"][1], tuple(desc["edit"][2]), tuple(desc["edit"][3]))
     if desc["units"] is None:
         print("  C05 replay: this record carries no configuration (%s)" % (data.get("what"),))
         return False
